@@ -1219,7 +1219,7 @@ pub fn well_behaved(rng: &mut Rng, opts: GenOpts) -> AST {
 // ---------------------------------------------------------------------------------------------
 // Fault injection (C10): insert one faulting statement at a statement position.
 
-pub const FAULT_CLASSES: [&str; 50] = [
+pub const FAULT_CLASSES: [&str; 54] = [
     "unknown-variable-read",
     "unknown-variable-write",
     "unknown-function",
@@ -1271,6 +1271,11 @@ pub const FAULT_CLASSES: [&str; 50] = [
     "block-local-after-block",
     "caller-local-in-callee",
     "array-method-on-object-with-array-field",
+    // expressions that look constant
+    "zero-divided-by-itself",
+    "zero-modulo-itself",
+    "array-compared-with-itself",
+    "object-compared-with-itself",
 ];
 
 pub fn fault_statement(class: &str, tag: usize) -> Vec<AST> {
@@ -1356,6 +1361,10 @@ pub fn fault_statement(class: &str, tag: usize) -> Vec<AST> {
         "inherited-method-arity" => AST::call_method(AST::object(AST::object(obj(), vec![]), vec![]), id("fm"), vec![]),
         "block-local-after-block" => AST::block(vec![AST::block(vec![AST::variable(id("zz_block_local"), AST::Integer(1)), var("zz_block_local")]), var("zz_block_local")]),
         "caller-local-in-callee" => AST::block(vec![AST::variable(id("zz_caller_local"), AST::Integer(1)), AST::call_function(id("zz_reads_caller_local"), vec![])]),
+        "zero-divided-by-itself" => AST::block(vec![AST::variable(id("zz_zero"), AST::Integer(0)), op("/", var("zz_zero"), var("zz_zero"))]),
+        "zero-modulo-itself" => AST::block(vec![AST::variable(id("zz_zero"), AST::Integer(0)), op("%", var("zz_zero"), var("zz_zero"))]),
+        "array-compared-with-itself" => AST::block(vec![AST::variable(id("zz_arr"), AST::array(AST::Integer(1), AST::Integer(0))), op("==", var("zz_arr"), var("zz_arr"))]),
+        "object-compared-with-itself" => AST::block(vec![AST::variable(id("zz_obj"), obj()), op("!=", var("zz_obj"), var("zz_obj"))]),
         "array-method-on-object-with-array-field" => {
             AST::access_array(AST::object(AST::Null, vec![AST::variable(id("items"), AST::array(AST::Integer(2), AST::Integer(0)))]), AST::Integer(0))
         }
